@@ -11,6 +11,7 @@ import GivaroModel.Lemmas.NumTheoLemmas
 import GivaroModel.Lemmas.NumTheoOrder
 import GivaroModel.Lemmas.NumTheoSqrt
 import Mathlib.NumberTheory.ArithmeticFunction.Moebius
+import Mathlib.RingTheory.ZMod.UnitsCyclic
 import GivaroModel.Spec.NumTheoSpec
 namespace Givaro.Props.C13
 open Givaro.Model.NumTheo Givaro.Lemmas.NumTheo Givaro.Spec.NumTheo
@@ -1983,6 +1984,265 @@ theorem prim_root_prime_correct (rnd : Nat → Int) (p : Nat) (hp : p.Prime) (h7
   · obtain ⟨hstop, _⟩ := firstDraw_spec _ _ _ _ _ hA0
     simp only [Bool.and_eq_true, beq_iff_eq] at hstop
     exact hstop
+
+/-! ## `prim_root` for n = p^k and n = 2p^k: the lifting theorem for primitive roots and the `A += p` correction -/
+
+/-- `(A + p)^(m+1) ≡ A^(m+1) + (m+1)·A^m·p (mod p²)` -/
+theorem add_pow_mod_sq (A p : Int) : ∀ m : Nat, ∃ t : Int, (A + p) ^ (m + 1) = A ^ (m + 1) + (m + 1) * A ^ m * p + p ^ 2 * t := by
+  intro m
+  induction m with
+  | zero => exact ⟨0, by ring⟩
+  | succ m ih =>
+    obtain ⟨t, ht⟩ := ih
+    refine ⟨(A + p) * t + (m + 1) * A ^ m, ?_⟩
+    rw [pow_succ, ht]; push_cast; ring
+
+/-- the order modulo `p` divides the order modulo any multiple of `p` -/
+theorem orderOf_dvd_of_dvd_modulus (g : Int) (M N : Nat) (hMN : M ∣ N) :
+    orderOf (g : ZMod M) ∣ orderOf (g : ZMod N) := by
+  apply orderOf_dvd_of_pow_eq_one
+  have h := pow_orderOf_eq_one (g : ZMod N)
+  have := congrArg (ZMod.castHom hMN (ZMod M)) h
+  rw [map_pow, map_intCast, map_one] at this
+  exact this
+
+/-- **lifting of primitive roots**: a primitive root `g` modulo the odd prime `p` with `g^(p-1) = 1 + p·c`, `p ∤ c`
+    (i.e. `g^(p-1) ≢ 1 mod p²`) has order `p^n (p-1) = φ(p^(n+1))` modulo `p^(n+1)`, for every `n` -/
+theorem orderOf_prime_pow_of_lift (p : Nat) (hp : p.Prime) (hp2 : p ≠ 2) (g c : Int)
+    (hord : orderOf (g : ZMod p) = p - 1) (hc : g ^ (p - 1) = 1 + p * c) (hcp : ¬ (p : Int) ∣ c) (n : Nat) :
+    orderOf (g : ZMod (p ^ (n + 1))) = p ^ n * (p - 1) := by
+  have hp1 : 0 < p - 1 := by have := hp.two_le; omega
+  have hx : ((g : ZMod (p ^ (n + 1)))) ^ (p - 1) = 1 + (p : ZMod (p ^ (n + 1))) * (c : ZMod (p ^ (n + 1))) := by
+    have := congrArg (fun z : Int => (z : ZMod (p ^ (n + 1)))) hc
+    simpa using this
+  have h1 : orderOf ((g : ZMod (p ^ (n + 1))) ^ (p - 1)) = p ^ n := by
+    rw [hx]; exact ZMod.orderOf_one_add_mul_prime hp hp2 c hcp n
+  have hdvd : (p - 1) ∣ orderOf (g : ZMod (p ^ (n + 1))) := by
+    rw [← hord]; exact orderOf_dvd_of_dvd_modulus g p (p ^ (n + 1)) (dvd_pow_self p (by omega))
+  rw [orderOf_pow' _ (by omega : p - 1 ≠ 0), Nat.gcd_eq_right hdvd] at h1
+  rw [← h1, Nat.div_mul_cancel hdvd]
+
+/-- the correction step of `prim_root`: for a primitive root `A` modulo the odd prime `p`, one of `A`, `A + p` is a primitive root
+    modulo `p^(n+1)`; precisely, if `A` is not, then `A + p` is -/
+theorem prim_root_correction (p : Nat) (hp : p.Prime) (hp2 : p ≠ 2) (A : Int)
+    (hord : orderOf (A : ZMod p) = p - 1) (n : Nat)
+    (hnot : orderOf (A : ZMod (p ^ (n + 1))) ≠ p ^ n * (p - 1)) :
+    orderOf ((A + p : Int) : ZMod (p ^ (n + 1))) = p ^ n * (p - 1) := by
+  have := Fact.mk hp
+  have hp1 : 2 ≤ p - 1 := by have := hp.two_le; omega
+  have hpI : Prime (p : Int) := Nat.prime_iff_prime_int.mp hp
+  -- A^(p-1) = 1 + p c
+  have h1 : (A : ZMod p) ^ (p - 1) = 1 := by rw [← hord]; exact pow_orderOf_eq_one _
+  have hdvd : (p : Int) ∣ A ^ (p - 1) - 1 := by
+    rw [← ZMod.intCast_zmod_eq_zero_iff_dvd]; push_cast; rw [h1]; simp
+  obtain ⟨c, hc⟩ := hdvd
+  have hc' : A ^ (p - 1) = 1 + p * c := by linarith
+  have hcp : (p : Int) ∣ c := by
+    by_contra hcn
+    exact hnot (orderOf_prime_pow_of_lift p hp hp2 A c hord hc' hcn n)
+  -- p ∤ A
+  have hA : ¬ (p : Int) ∣ A := by
+    intro hd
+    have : (A : ZMod p) = 0 := (ZMod.intCast_zmod_eq_zero_iff_dvd A p).mpr hd
+    rw [this] at hord
+    have h0 : orderOf (0 : ZMod p) = 0 := by
+      rw [orderOf_eq_zero_iff']; intro k hk; rw [zero_pow (by omega)]; exact zero_ne_one
+    omega
+  -- (A+p)^(p-1) = 1 + p c'
+  obtain ⟨t, ht⟩ := add_pow_mod_sq A p (p - 2)
+  have e : p - 2 + 1 = p - 1 := by omega
+  rw [e] at ht
+  obtain ⟨c0, hc0⟩ := hcp
+  have hAp : ((A + p : Int) : ZMod p) = (A : ZMod p) := by push_cast; simp
+  apply orderOf_prime_pow_of_lift p hp hp2 (A + p) (c + ((p - 2 : Nat) + 1 : Int) * A ^ (p - 2) + p * t) (by rw [hAp]; exact hord)
+  · rw [ht, hc']; ring
+  · intro hd
+    rw [hc0] at hd
+    have h2 : (p : Int) ∣ ((p - 2 : Nat) + 1 : Int) * A ^ (p - 2) := by
+      have h3 : (p : Int) ∣ (p : Int) * c0 + p * t := ⟨c0 + t, by ring⟩
+      have := dvd_sub hd h3
+      have e2 : (p : Int) * c0 + ((p - 2 : Nat) + 1 : Int) * A ^ (p - 2) + p * t - (p * c0 + p * t) = ((p - 2 : Nat) + 1 : Int) * A ^ (p - 2) := by ring
+      rwa [e2] at this
+    rcases hpI.dvd_or_dvd h2 with h | h
+    · have hle := Int.le_of_dvd (by positivity) h
+      have : ((p - 2 : Nat) : Int) = (p : Int) - 2 := by omega
+      omega
+    · exact hA (hpI.dvd_of_dvd_pow h)
+
+/-- an odd primitive root modulo an odd `M ≥ 3` is a primitive root modulo `2M` -/
+theorem orderOf_two_mul (M : Nat) (hM : 3 ≤ M) (hMo : M % 2 = 1) (x : Int) (hxo : x % 2 = 1)
+    (hord : orderOf (x : ZMod M) = M.totient) : orderOf (x : ZMod (2 * M)) = (2 * M).totient := by
+  have htot : (2 * M).totient = M.totient := by
+    rw [Nat.totient_mul (by rw [Nat.coprime_two_left]; exact Nat.odd_iff.mpr hMo)]; simp
+  have hpos : 0 < M.totient := Nat.totient_pos.mpr (by omega)
+  have hunit : IsUnit (x : ZMod M) := by
+    have h1 : (x : ZMod M) ^ M.totient = 1 := by rw [← hord]; exact pow_orderOf_eq_one _
+    exact IsUnit.of_pow_eq_one h1 (by omega)
+  have hcM : IsCoprime (M : Int) x := (ZMod.coe_int_isUnit_iff_isCoprime x M).mp hunit
+  have hc2 : IsCoprime (2 : Int) x := ⟨-(x / 2), 1, by omega⟩
+  have hc : IsCoprime ((2 * M : Nat) : Int) x := by push_cast; exact IsCoprime.mul_left hc2 hcM
+  have hg : Int.gcd (x % ((2 * M : Nat) : Int)) ((2 * M : Nat) : Int) = 1 := by
+    rw [Int.gcd_emod, Int.gcd_comm]; exact Int.isCoprime_iff_gcd_eq_one.mp hc
+  have hxphi := pow_totient_of_coprime x (2 * M) (by omega) hg
+  have h1 : orderOf (x : ZMod (2 * M)) ∣ M.totient := by
+    rw [← htot]; exact orderOf_dvd_of_pow_eq_one hxphi
+  have h2 : M.totient ∣ orderOf (x : ZMod (2 * M)) := by
+    rw [← hord]; exact orderOf_dvd_of_dvd_modulus x M (2 * M) (Dvd.intro_left 2 rfl)
+  rw [htot]; exact Nat.dvd_antisymm h1 h2
+
+theorem primRootCand_spec (rnd : Nat → Int) (p : Nat) (hp : p.Prime) (h7 : 7 ≤ p) (Lf : List Nat) (hF : PhiFactors p Lf)
+    (A0 : Int) (hA0 : primRootCand rnd p ((primeFactors (phi p)).map (fun f => Int.tdiv (phi p) f)) = some A0) :
+    orderOf (A0 : ZMod p) = p.totient := by
+  apply (primTest_iff_order A0 p (by omega) Lf hF).mp
+  unfold primRootCand at hA0
+  split at hA0
+  · next A1 hfind =>
+    injection hA0 with hA0; subst hA0
+    have hmem := List.mem_of_find?_eq_some hfind
+    have htest := List.find?_some hfind
+    refine ⟨?_, htest⟩
+    simp only [List.mem_cons, List.not_mem_nil, or_false] at hmem
+    rcases hmem with h | h | h | h <;> subst h
+    · exact gcd_small_prime p hp 2 (by norm_num) (by omega)
+    · exact gcd_small_prime p hp 3 (by norm_num) (by omega)
+    · exact gcd_small_prime p hp 5 (by norm_num) (by omega)
+    · exact gcd_small_prime p hp 6 (by norm_num) (by omega)
+  · obtain ⟨hstop, _⟩ := firstDraw_spec _ _ _ _ _ hA0
+    simp only [Bool.and_eq_true, beq_iff_eq] at hstop
+    exact hstop
+
+/-- the end of `prim_root` (lift from `p` to `p^k`, then make the value odd when `n = 2p^k`): the result is a primitive root modulo
+    `p^k`, and odd when `even` -/
+theorem primRootFinish_spec (p : Nat) (hp : p.Prime) (hp2 : p ≠ 2) (k : Nat) (hk : 1 ≤ k)
+    (Lf2 : List Nat) (hF2 : PhiFactors (p ^ k) Lf2) (A0 : Int) (hA0 : orderOf (A0 : ZMod p) = p.totient) (even : Bool) :
+    orderOf ((primRootFinish A0 p ((p : Int) ^ k) even (decide ((p : Int) ^ k = p)) : Int) : ZMod (p ^ k)) = (p ^ k).totient ∧
+      (even = true → primRootFinish A0 p ((p : Int) ^ k) even (decide ((p : Int) ^ k = p)) % 2 = 1) := by
+  have hpodd : p % 2 = 1 := by
+    rcases hp.eq_two_or_odd with h | h
+    · exact absurd h hp2
+    · exact h
+  have hpI2 : (p : Int) % 2 = 1 := by omega
+  have htp : p.totient = p - 1 := Nat.totient_prime hp
+  unfold primRootFinish
+  by_cases hk1 : k = 1
+  · subst hk1
+    have hone : ∀ x : Int, orderOf (x : ZMod (p ^ 1)) = orderOf (x : ZMod p) := fun x =>
+      Nat.dvd_antisymm (orderOf_dvd_of_dvd_modulus x (p ^ 1) p (by simp)) (orderOf_dvd_of_dvd_modulus x p (p ^ 1) (by simp))
+    have htot1 : (p ^ 1).totient = p.totient := by rw [pow_one]
+    rw [htot1]
+    simp only [pow_one, decide_true, ↓reduceIte]
+    by_cases hc : even = true ∧ A0 % 2 = 0
+    · rw [if_pos hc]
+      refine ⟨?_, fun _ => by omega⟩
+      rw [hone]
+      have : ((A0 + p : Int) : ZMod p) = (A0 : ZMod p) := by push_cast; simp
+      rw [this]; exact hA0
+    · rw [if_neg hc]
+      refine ⟨by rw [hone]; exact hA0, fun he => ?_⟩
+      have : ¬ A0 % 2 = 0 := fun h => hc ⟨he, h⟩
+      omega
+  · have hk2 : 2 ≤ k := by omega
+    have hne : ¬ ((p : Int) ^ k = p) := by
+      intro h
+      have h' : p ^ k = p ^ 1 := by rw [pow_one]; exact_mod_cast h
+      have := Nat.pow_right_injective hp.two_le h'
+      omega
+    simp only [hne, decide_false, Bool.false_eq_true, ↓reduceIte]
+    obtain ⟨n, rfl⟩ : ∃ n, k = n + 1 := ⟨k - 1, by omega⟩
+    have htk : (p ^ (n + 1)).totient = p ^ n * (p - 1) := Nat.totient_prime_pow_succ hp n
+    have hpk2 : 2 ≤ p ^ (n + 1) := by
+      calc 2 ≤ p := hp.two_le
+        _ = p ^ 1 := (pow_one p).symm
+        _ ≤ p ^ (n + 1) := Nat.pow_le_pow_right hp.pos (by omega)
+    have hpkodd : ((p : Int) ^ (n + 1)) % 2 = 1 := by
+      have : (p ^ (n + 1)) % 2 = 1 := by rw [Nat.pow_mod, hpodd]; simp
+      have h2 : (((p ^ (n + 1) : Nat) : Int)) % 2 = 1 := by omega
+      rwa [Nat.cast_pow] at h2
+    -- the value after the `A += p` correction is a primitive root modulo p^k
+    have hA1 : orderOf (((if (!isPrimRoot A0 ((p : Int) ^ (n + 1))) = true then A0 + p else A0 : Int)) : ZMod (p ^ (n + 1))) = (p ^ (n + 1)).totient := by
+      have hiff := is_prim_root_iff A0 (p ^ (n + 1)) hpk2 Lf2 hF2
+      rw [Nat.cast_pow] at hiff
+      by_cases hpr : isPrimRoot A0 ((p : Int) ^ (n + 1)) = true
+      · simp only [hpr, Bool.not_true, Bool.false_eq_true, ↓reduceIte]
+        exact hiff.mp hpr
+      · have hpr' : isPrimRoot A0 ((p : Int) ^ (n + 1)) = false := by simpa using hpr
+        simp only [hpr', Bool.not_false, ↓reduceIte]
+        rw [htk]
+        apply prim_root_correction p hp hp2 A0 (by rw [hA0, htp]) n
+        rw [← htk]; intro hc; exact hpr (hiff.mpr hc)
+    set A1 : Int := (if (!isPrimRoot A0 ((p : Int) ^ (n + 1))) = true then A0 + p else A0) with hA1def
+    by_cases hc : even = true ∧ A1 % 2 = 0
+    · rw [if_pos hc]
+      refine ⟨?_, fun _ => by omega⟩
+      have : ((A1 + (p : Int) ^ (n + 1) : Int) : ZMod (p ^ (n + 1))) = (A1 : ZMod (p ^ (n + 1))) := by
+        push_cast
+        have : ((p : ZMod (p ^ (n + 1))) ^ (n + 1)) = 0 := by
+          rw [← Nat.cast_pow]; exact ZMod.natCast_self _
+        rw [this]; simp
+      rw [this]; exact hA1
+    · rw [if_neg hc]
+      refine ⟨hA1, fun he => ?_⟩
+      have : ¬ A1 % 2 = 0 := fun h => hc ⟨he, h⟩
+      omega
+
+theorem pow_facts (p : Nat) (hp : p.Prime) (h7 : 7 ≤ p) (k : Nat) (hk : 1 ≤ k) :
+    7 ≤ p ^ k ∧ (p ^ k) % 2 = 1 := by
+  have hpodd : p % 2 = 1 := by
+    rcases hp.eq_two_or_odd with h | h
+    · omega
+    · exact h
+  refine ⟨?_, by rw [Nat.pow_mod, hpodd]; simp⟩
+  calc 7 ≤ p := h7
+    _ = p ^ 1 := (pow_one p).symm
+    _ ≤ p ^ k := Nat.pow_le_pow_right hp.pos hk
+
+/-- **`prim_root(A, n)` for `n = p^k`** (`p ≥ 7` prime, every `k ≥ 1`, every sequence of random draws): a returned value is a primitive root
+    modulo `p^k`.  Oracle contracts: the factorisation of `p^k` starts with `p` (`hpf`), the factor lists of `φ(p)` and `φ(p^k)` are
+    well formed (`hF`, `hF2`). -/
+theorem prim_root_prime_power_correct (rnd : Nat → Int) (p : Nat) (hp : p.Prime) (h7 : 7 ≤ p) (k : Nat) (hk : 1 ≤ k)
+    (hpf : ∃ tl, primeFactors ((p : Int) ^ k) = (p : Int) :: tl)
+    (Lf : List Nat) (hF : PhiFactors p Lf) (Lf2 : List Nat) (hF2 : PhiFactors (p ^ k) Lf2)
+    (A : Int) (h : primRoot rnd ((p ^ k : Nat) : Int) = some A) : orderOf (A : ZMod (p ^ k)) = (p ^ k).totient := by
+  obtain ⟨h7k, hodd⟩ := pow_facts p hp h7 k hk
+  obtain ⟨tl, hpf⟩ := hpf
+  unfold primRoot at h
+  rw [if_neg (by omega), if_neg (by omega)] at h
+  simp only [] at h
+  rw [if_neg (by omega)] at h
+  rw [Nat.cast_pow, hpf] at h
+  simp only [Option.map_eq_some_iff] at h
+  obtain ⟨A0, hA0, hfin⟩ := h
+  have hcand := primRootCand_spec rnd p hp h7 Lf hF A0 hA0
+  have hdec : decide (((p ^ k : Nat) : Int) % 2 = 0) = false := decide_eq_false (by omega)
+  rw [← hfin]
+  have := (primRootFinish_spec p hp (by omega) k hk Lf2 hF2 A0 hcand false).1
+  rw [Nat.cast_pow] at hdec
+  rw [hdec]
+  exact this
+
+/-- **`prim_root(A, n)` for `n = 2·p^k`** -/
+theorem prim_root_two_prime_power_correct (rnd : Nat → Int) (p : Nat) (hp : p.Prime) (h7 : 7 ≤ p) (k : Nat) (hk : 1 ≤ k)
+    (hpf : ∃ tl, primeFactors ((p : Int) ^ k) = (p : Int) :: tl)
+    (Lf : List Nat) (hF : PhiFactors p Lf) (Lf2 : List Nat) (hF2 : PhiFactors (p ^ k) Lf2)
+    (A : Int) (h : primRoot rnd ((2 * p ^ k : Nat) : Int) = some A) :
+    orderOf (A : ZMod (2 * p ^ k)) = (2 * p ^ k).totient := by
+  obtain ⟨h7k, hodd⟩ := pow_facts p hp h7 k hk
+  obtain ⟨tl, hpf⟩ := hpf
+  unfold primRoot at h
+  rw [if_neg (by omega), if_neg (by omega)] at h
+  simp only [] at h
+  rw [if_pos (by omega)] at h
+  have htd : Int.tdiv ((2 * p ^ k : Nat) : Int) 2 = (p : Int) ^ k := by
+    push_cast; rw [Int.mul_tdiv_cancel_left _ (by norm_num)]
+  rw [htd, hpf] at h
+  simp only [Option.map_eq_some_iff] at h
+  obtain ⟨A0, hA0, hfin⟩ := h
+  have hcand := primRootCand_spec rnd p hp h7 Lf hF A0 hA0
+  have hdec : decide (((2 * p ^ k : Nat) : Int) % 2 = 0) = true := decide_eq_true (by omega)
+  rw [hdec] at hfin
+  obtain ⟨h1, h2⟩ := primRootFinish_spec p hp (by omega) k hk Lf2 hF2 A0 hcand true
+  rw [← hfin]
+  exact orderOf_two_mul (p ^ k) (by omega) hodd _ (h2 rfl) h1
 
 /-! ## Moebius -/
 
